@@ -48,19 +48,34 @@ def pending(ctx, res, seen):
 
 def run(ctx):
     drv = ctx.build("c24")
-    # MC: every crash point of bounded histories, one and two tables
+    # MC: every crash point of bounded histories (also crashes during repair), one and two tables
     ctx.model_check("store/MCFreezer", "store/MCFreezer1", timeout=T, name="MCFreezer-1table", workers=4)
+    ctx.model_check("store/MCFreezer", "store/MCFreezer2Q", timeout=T, name="MCFreezer-2tables", workers=4)
     if ctx.thorough:
-        ctx.model_check("store/MCFreezer", "store/MCFreezer2", timeout=T, name="MCFreezer-2tables", workers=6, coverage=True)
+        ctx.model_check("store/MCFreezer", "store/MCFreezerMixed", timeout=T, name="MCFreezer-2tables-mixed-groups", workers=6, coverage=True)
         ctx.model_check("store/MCFreezer", "store/MCFreezer1T", timeout=T, name="MCFreezer-1table-deeper", workers=6)
-    else:
-        ctx.model_check("store/MCFreezer", "store/MCFreezer2Q", timeout=T, name="MCFreezer-2tables", workers=4)
+        ctx.model_check("store/MCFreezer", "store/MCFreezer2", timeout=T, name="MCFreezer-2tables-3items", workers=8)
+    # R: call histories sampled by TLC from the model (simulation mode) drive the real freezer first
+    sim = ctx.tlc("store/MCFreezer", "store/MCFreezerSim", simulate="num=%d" % ctx.pick(2, 12), depth=400, workers=2,
+                  timeout=T, tags=("MBT",), deadlock=False, name="MCFreezer-simulate")
+    if sim.error or sim.timeout:
+        raise InfraError("TLC simulation failed: %s" % (sim.error or "timeout"))
+    hists = []
+    for h in sim.lines.get("MBT", []):
+        if h not in hists:
+            hists.append(h)
+    if not hists:
+        raise InfraError("TLC simulation printed no behaviour")
+    hp = os.path.join(ctx.scratch, "tlc-histories.json")
+    with open(hp, "w") as f:
+        json.dump(hists, f)
+    ctx.cov["behaviours_replayed"] += 2 * len(hists)
     # XF + V: real histories, crash images, validated by the trace specification
     seen = {}
     for cfg, tcfg in (("g2", "store/FreezerTraceG2"), ("mixed", "store/FreezerTraceMixed")):
         tp = os.path.join(ctx.scratch, "trace-%s.ndjson" % cfg)
-        args = ["-mode", "xf", "-cfg", cfg, "-unsynced-tail", "-trace", tp, "-dir", os.path.join(ctx.scratch, "fz-" + cfg),
-                "-n", ctx.pick(3, 14), "-steps", ctx.pick(9, 14), "-images", ctx.pick(5, 14)]
+        args = ["-mode", "xf", "-cfg", cfg, "-unsynced-tail", "-scripts", hp, "-trace", tp, "-dir", os.path.join(ctx.scratch, "fz-" + cfg),
+                "-n", ctx.pick(2, 12), "-steps", ctx.pick(9, 14), "-images", ctx.pick(5, 14)]
         if ctx.thorough:
             args.append("-every-length")
         s, _ = ctx.drive(drv, args, name="c24-xf-" + cfg, timeout=T)
